@@ -120,6 +120,10 @@ func NewTable(b *bytes.Buffer) (t Table, err error) {
 }
 
 func NewTableCustom(defs *[]RouteDef) (t Table, err error) {
+	// a JSON body of 'null' decodes to a nil pointer
+	if defs == nil {
+		return nil, errors.New("route: no route definitions")
+	}
 
 	t = make(Table)
 	for _, d := range *defs {
